@@ -2479,4 +2479,101 @@ theorem reqEvent_released (cfg : Cfg) (s : S) (r : Nat) (post : Bool)
     · rename_i h1 h2
       simp [h1, h2] at h
 
+
+/-! ### Spec level: members belong to open transactions only -/
+
+theorem next_snap (cfg : Cfg) (t : Tracker) (o : Obs) : (t.next cfg o).snap = o.mem := by
+  simp only [Tracker.next]; split <;> rfl
+
+/-- On any observed history satisfying the Spec (whoever produced it), every member of a concurrent quota's
+    set belongs to a transaction that is still open. -/
+theorem members_open (cfg : Cfg) (obs : List Obs) :
+    ∀ (t : Tracker) (op : Nat → Bool), holdsFrom cfg t obs = true →
+      (∀ q, cfg.isConc q = true → ∀ m ∈ t.snap q, op m.req = true) →
+      ∀ q, cfg.isConc q = true → ∀ m ∈ lastSnap cfg t obs q, lastOpen m.req obs (op m.req) = true := by
+  induction obs with
+  | nil => intro t op _ h q hc m hm; exact h q hc m hm
+  | cons o rest ih =>
+    intro t op hh hop q hc m hm
+    simp only [holdsFrom, Bool.and_eq_true] at hh
+    simp only [lastSnap] at hm
+    simp only [lastOpen]
+    -- the status function after this event
+    let op' : Nat → Bool := fun r => match o.ev with
+      | .req r' _ => if r' = r then o.verdict == .admitted else op r
+      | .resp r' => if r' = r then false else op r
+      | .err r' => if r' = r then false else op r
+      | .adv _ => op r
+    have key : ∀ q, cfg.isConc q = true → ∀ m ∈ (t.next cfg o).snap q, op' m.req = true := by
+      intro q hc m hm
+      rw [next_snap] at hm
+      have hq := stepOk_elim cfg t o hh.1 q hc
+      simp only [quotaOk, Bool.and_eq_true] at hq
+      obtain ⟨_, hq⟩ := hq
+      cases hev : o.ev with
+      | req r post =>
+        rw [hev] at hq
+        simp only [op', hev]
+        simp only [Bool.and_eq_true, Bool.or_eq_true, beq_iff_eq] at hq
+        obtain ⟨hshape, hverd⟩ := hq
+        by_cases e : r = m.req
+        · simp only [e, if_true]
+          have hhold : holdsSlot r (o.mem q) = true := by
+            simp only [holdsSlot, List.any_eq_true, beq_iff_eq]; exact ⟨m, hm, e.symm⟩
+          cases hv : o.verdict with
+          | admitted => rfl
+          | refused => rw [hv] at hverd; simp [hhold] at hverd
+          | early => rw [hv] at hverd; simp [hhold] at hverd
+          | none => rw [hv] at hverd; cases hverd
+        · simp only [e, if_false]
+          have hmb : m ∈ t.snap q := by
+            rcases hshape with (h | h) | h
+            · rw [h] at hm; exact hm
+            · rw [h] at hm; exact (List.mem_filter.mp hm).1
+            · rw [h] at hm
+              rcases List.mem_append.mp hm with h2 | h2
+              · exact h2
+              · simp at h2; rw [h2] at e; exact absurd rfl e
+          exact hop q hc m hmb
+      | resp r =>
+        rw [hev] at hq
+        simp only [op', hev]
+        simp only [Bool.and_eq_true, beq_iff_eq] at hq
+        rw [hq.1] at hm
+        have := List.mem_filter.mp hm
+        have hne : ¬ r = m.req := by intro e; simpa [e] using this.2
+        simp only [hne, if_false]
+        exact hop q hc m this.1
+      | err r =>
+        rw [hev] at hq
+        simp only [op', hev]
+        simp only [Bool.and_eq_true, beq_iff_eq] at hq
+        rw [hq.1] at hm
+        have := List.mem_filter.mp hm
+        have hne : ¬ r = m.req := by intro e; simpa [e] using this.2
+        simp only [hne, if_false]
+        exact hop q hc m this.1
+      | adv d =>
+        rw [hev] at hq
+        simp only [op', hev]
+        simp only [Bool.and_eq_true] at hq
+        apply hop q hc m
+        cases hl : t.lastTick cfg d with
+        | none => rw [hl] at hq; simp at hq; rw [hq.2] at hm; exact hm
+        | some tick =>
+          rw [hl] at hq
+          simp only [Bool.and_eq_true] at hq
+          exact (List.isSublist_iff_sublist.mp hq.2.1.1).subset hm
+    exact ih (t.next cfg o) op' hh.2 key q hc m hm
+
+
+theorem lastSnap_run (cfg : Cfg) (es : List Event) :
+    ∀ s t, t.snap = s.members → lastSnap cfg t (run cfg s es) = (final cfg s es).members := by
+  induction es with
+  | nil => intro s t h; exact h
+  | cons e rest ih =>
+    intro s t _
+    simp only [run, lastSnap, final]
+    exact ih _ _ (next_snap cfg t _)
+
 end LunarVerif.C02
